@@ -24,6 +24,17 @@ fn main() {
         "check" => driver(&args[2..]),
         "worker" => worker(&args[2..]),
         "replay" => replay(&args[2..]),
+        "dump-gillham" => {
+            sqverif::run::install_quiet_panic_hook();
+            let saved = unsafe { libc::dup(1) };
+            sqverif::run::silence_stdout();
+            let t = props::c05::dump_gillham_table();
+            unsafe {
+                libc::dup2(saved, 1);
+            }
+            print!("{}", t);
+            0
+        }
         "list" => {
             for p in props::all() {
                 println!("{}", p.id);
@@ -89,18 +100,33 @@ fn driver(args: &[String]) -> i32 {
         Tier::Thorough => spec.thorough_budget_s,
     });
     let mut children = Vec::new();
-    for w in 0..nworkers {
-        let out = scratch.join(format!("w{}.json", w));
-        let ch = Command::new(&exe)
-            .args(["worker", &id, "--tier", tier.name(), "--seed", &seed.to_string(), "--worker", &w.to_string(), "--workers", &nworkers.to_string(), "--out"])
-            .arg(&out)
-            .env("VERIF_ROOT", &root)
-            .spawn();
-        match ch {
-            Ok(c) => children.push((c, out)),
-            Err(e) => {
-                eprintln!("cannot spawn worker: {}", e);
+    let mut exes = vec![(exe.clone(), "checked")];
+    if spec.also_nochk {
+        // sibling binary built with the `nochk` profile (wrapping arithmetic, like the project's release profile)
+        let sib = exe.parent().and_then(|p| p.parent()).map(|p| p.join("nochk").join("pbt"));
+        match sib {
+            Some(p) if p.exists() => exes.push((p, "nochk")),
+            _ => {
+                eprintln!("the nochk build of the harness is missing (run ./check, not pbt directly)");
                 return 2;
+            }
+        }
+    }
+    for (exe, tag) in &exes {
+        for w in 0..nworkers {
+            let out = scratch.join(format!("w{}-{}.json", w, tag));
+            let ch = Command::new(exe)
+                .args(["worker", &id, "--tier", tier.name(), "--seed", &seed.to_string(), "--worker", &w.to_string(), "--workers", &nworkers.to_string(), "--out"])
+                .arg(&out)
+                .env("VERIF_ROOT", &root)
+                .env("VERIF_PROFILE", tag)
+                .spawn();
+            match ch {
+                Ok(c) => children.push((c, out)),
+                Err(e) => {
+                    eprintln!("cannot spawn worker: {}", e);
+                    return 2;
+                }
             }
         }
     }
@@ -150,7 +176,7 @@ fn driver(args: &[String]) -> i32 {
     let mut seen = HashSet::new();
     let mut failures = Vec::new();
     for f in merged.failures.drain(..) {
-        let key = format!("{}|{}", f.sig, f.msg.chars().take(60).collect::<String>());
+        let key = f.sig.clone();
         if seen.insert(key) {
             failures.push(f);
         }
@@ -225,7 +251,7 @@ fn replay(args: &[String]) -> i32 {
     sqverif::run::install_quiet_panic_hook();
     let known = ctx::load_known(&verif_root());
     let mut c = Ctx::new(&id, Tier::Quick, 0, 0, 1, known);
-    c.strict = std::env::var("VERIF_REPLAY_LENIENT").is_err();
+    c.strict = std::env::var("VERIF_REPLAY_STRICT").is_ok();
     let case = v.get("case").cloned().unwrap_or(Value::Null);
     // keep stdout clean while the code under test runs
     let saved = unsafe { libc::dup(1) };
